@@ -199,6 +199,8 @@ func compact(v interface{}) string {
 
 func esc(s string) string { return url.QueryEscape(s) }
 
+func urlUnescape(s string) (string, error) { return url.QueryUnescape(s) }
+
 func fmtFloat(f float64) string { return strconv.FormatFloat(f, 'g', -1, 64) }
 
 // tok renders a JSON value as a typed token according to the field's abstract type.
@@ -1348,6 +1350,10 @@ func boundary(suite string, tier string) {
 		srcBoundary(tier)
 		return
 	}
+	if suite == "val" {
+		valBoundary(tier)
+		return
+	}
 	fields := allFields()
 	switch suite {
 	case "sweep":
@@ -1463,6 +1469,10 @@ func random(suite string, k int) {
 		srcRandom(k)
 		return
 	}
+	if suite == "val" {
+		valRandom(k)
+		return
+	}
 	fields := allFields()
 	r := common.NewRng(common.Seed()).Fork(uint64(k))
 	if len(fields) == 0 {
@@ -1520,6 +1530,8 @@ func replay(line string) {
 		return
 	}
 	switch w[0] {
+	case "val":
+		replayVal(w)
 	case "src":
 		if ops := kv(w, "ops"); ops != "" {
 			runSrc(strings.Split(ops, ","))
